@@ -49,6 +49,49 @@ def paren(t):
                 break
     return "(" + t + ")"
 
+
+class _Rename(ast.NodeTransformer):
+    def __init__(self, mapping):
+        self.mapping = mapping
+
+    def visit_Name(self, n):
+        if n.id in self.mapping:
+            return ast.copy_location(ast.Name(id=self.mapping[n.id], ctx=n.ctx), n)
+        return n
+
+
+def canonical_locals(fn, roles):
+    """Local variables are recognised by what is first assigned to them, not by their spelling (a renamed local is the
+    same program): roles = [(canonical name, predicate on the unparsed right-hand side given the names found so far)]."""
+    found = {}
+    assigns = [n for n in ast.walk(fn) if isinstance(n, ast.Assign) and len(n.targets) == 1 and isinstance(n.targets[0], ast.Name)]
+    changed = True
+    while changed:
+        changed = False
+        for node in assigns:
+            rhs = txt(node.value)
+            for canon, pred in roles:
+                if canon not in found.values() and node.targets[0].id not in found and pred(rhs, {v: k for k, v in found.items()}):
+                    found[node.targets[0].id] = canon
+                    changed = True
+                    break
+    mapping = {k: v for k, v in found.items() if k != v}
+    clash = set(mapping.values()) & {n.id for n in ast.walk(fn) if isinstance(n, ast.Name)} - set(mapping)
+    if not mapping or clash:
+        return fn
+    return ast.fix_missing_locations(_Rename(mapping).visit(fn))
+
+
+EXEC_ROLES = [
+    ("now", lambda rhs, f: rhs == "getTime()"),
+    ("tm", lambda rhs, f: "now" in f and rhs == "%s - self.__start" % f["now"]),
+    ("state", lambda rhs, f: rhs == "self.__state"),
+    ("done_called", lambda rhs, f: rhs == "False"),
+    ("new_state_start", lambda rhs, f: "tm" in f and rhs == f["tm"]),
+    ("initial_call", lambda rhs, f: "state" in f and rhs == "not %s.ran" % f["state"]),
+    ("duration", lambda rhs, f: rhs == "4294967295"),
+]
+
 MFIELDS = ["should", "engaged", "cur", "start", "sdat", "dur", "nt_cur", "auto_on", "clk", "ncall"]
 LOCALS = ["now", "tm", "state", "done_called", "new_state_start"]          # locals that live across top-level statements
 FLOC = {"now": "f_now", "tm": "f_tm", "state": "f_state", "done_called": "f_done", "new_state_start": "f_nss"}
@@ -131,7 +174,7 @@ class Tr:
         fs = [n for n in cls[0].body if isinstance(n, ast.FunctionDef) and n.name == "execute"]
         if len(fs) != 1 or fs[0].decorator_list or len(fs[0].args.args) != 1:
             raise Shape("StateMachine.execute(self) not found")
-        self.fn = fs[0]
+        self.fn = canonical_locals(fs[0], EXEC_ROLES)
 
     # ------------------------------------------------------------ expressions
     def state_name(self, env, what):
